@@ -233,6 +233,9 @@ class ContainerValidate(Contract):
                 out["carries_the_checked_object"] = exc.attrs.get("data") is p.ghost.get("checked")
         elif exc.cls is OtherException:
             out["foreign_exception_only_from_user_parser"] = exc.attrs.get("__from_callback__", (None,))[0] == "parser"
+            # C06: whichever user callback fails - a parser function as well - the outcome stays in the documented channel
+            # (SchemaError / SchemaErrors): the raw exception of a user parser is not in it
+            out["a_raising_user_parser_is_reported_in_the_documented_channel"] = exc.attrs.get("__from_callback__", (None,))[0] != "parser"
         return out
 
 
